@@ -18,7 +18,7 @@ func init() {
 
 func runC01(r *engine.Run) {
 	r.Rule("EXH-U", "every node-kind dispatch of the trie operations (lookup, insert at node / at exhausted path, delete at node and its two inner dispatches, delete at exhausted path, iterate) has an arm for each of *LeafNode, *FullNode, *ExtensionNode; no arm of a concrete kind consists of a panic; a panicking default is tolerated only when the dispatched value cannot be a nil interface (it is not the result of a repo function that can return (nil, ..., nil))")
-	r.Rule("DOM-size", "in Insert, the write lock, insert, insertLeaf and setRoot are reached only when len(marshalled value) > MPTMaxAllowableNodeSize tested false and len == 0 tested false; a nil value and an empty encoding route to Delete(path)")
+	r.Rule("DOM-size", "in Insert, the write lock, insert, insertLeaf and setRoot are reached only when len(marshalled value) > MPTMaxAllowableNodeSize tested false and len == 0 tested false; a nil value and an empty encoding route to Delete(path); the value's MarshalMsg is called only where the value tested non-nil, each route to Delete is taken only where the value tested nil or its encoding tested empty, and setRoot stores its argument into the root field")
 	r.Rule("DEP-absent", "deleting at an exhausted path on a branch returns ErrValueNotPresent under a test of the branch's HasValue(); deleteAtNode's leaf arm returns ErrValueNotPresent when the path comparison fails; delete of a nil key returns ErrValueNotPresent")
 	r.Rule("DOM-ext-nonempty", "every construction of an extension node (NewExtensionNode, insertExtension, store to ExtensionNode.Path in the trie operations) receives a path established non-empty: a literal/append/concat with at least one element, a prefix under a dominating len != 0 test, a suffix X[k:] under a dominating len(X) != k test, an existing extension's path, or a parameter that is non-empty at every call site; an empty-path extension makes its subtree unreachable for lookups")
 	r.Rule("FRESH-node", "see C03: no trie operation writes in place to node memory shared with the store, the node cache, a pending change or a caller (aliasing changes what other lookups return)")
@@ -284,6 +284,58 @@ func domSize(r *engine.Run) {
 	})
 	if nd < 2 {
 		r.Fail(rule, fn(f)+"|empty is delete", r.P.Pos(f.Pos()), fmt.Sprintf("Insert routes to Delete on %d path(s); a nil value and an empty encoding must both be deletes", nd))
+	}
+	// the value is marshalled only where it tested non-nil, and the two routes to
+	// Delete are taken exactly for a nil value / an empty encoding
+	valueP := f.Params[2]
+	nilFact := func(b *ssa.BasicBlock) (known, isNil bool) {
+		facts, ok := engine.FactsOn(f, b)
+		if !ok {
+			return false, false
+		}
+		for _, ft := range facts {
+			if ft.Kind == "eq" && (ft.A == ssa.Value(valueP) && nilConst(ft.B) || ft.B == ssa.Value(valueP) && nilConst(ft.A)) {
+				return true, ft.Truth
+			}
+		}
+		return false, false
+	}
+	engine.Instrs(f, func(in ssa.Instruction) {
+		c, ok := in.(*ssa.Call)
+		if !ok {
+			return
+		}
+		if recv, isM := engine.IsMethodCall(c, "MarshalMsg"); isM && recv == ssa.Value(valueP) {
+			known, isNil := nilFact(c.Block())
+			r.Check(known && !isNil, rule, fn(f)+"|marshal non-nil", r.P.Pos(c.Pos()), "the value is marshalled only where it tested non-nil",
+				"Insert calls a method of its value on a path where the value may be nil: a nil value panics instead of being treated as a delete")
+		}
+		if staticCalleeIs(c, pkgUtil, "MerklePatriciaTrie", "Delete") {
+			known, isNil := nilFact(c.Block())
+			emptyEnc := false
+			if facts, ok := engine.FactsOn(f, c.Block()); ok {
+				for _, ft := range facts {
+					if ft.Kind == "eq" && ft.Truth && (engine.ValKey(ft.A) == lenKey && isZero(ft.B) || engine.ValKey(ft.B) == lenKey && isZero(ft.A)) {
+						emptyEnc = true
+					}
+				}
+			}
+			r.Check(known && isNil || emptyEnc, rule, o.next(fn(f)+"|Delete only for nil/empty"), r.P.Pos(c.Pos()), "the route to Delete is taken only where the value tested nil or its encoding tested empty",
+				"Insert routes to Delete on a path where the value is neither nil nor empty: storing a value removes the entry instead")
+		}
+	})
+	// setRoot installs what it is given
+	if g := r.Fn(rule, pkgUtil, "MerklePatriciaTrie", "setRoot"); g != nil {
+		stored := false
+		engine.Instrs(g, func(in ssa.Instruction) {
+			if st, ok := in.(*ssa.Store); ok {
+				if fld := engine.FieldOf(st.Addr); fld != nil && fld.Name() == "root" && stripCT(st.Val) == ssa.Value(g.Params[1]) {
+					stored = true
+				}
+			}
+		})
+		r.Check(stored, rule, fn(g)+"|installs root", r.P.Pos(g.Pos()), "setRoot stores its argument into the root field",
+			"setRoot no longer installs the new root: every insert and delete computes a new trie and then keeps the old one")
 	}
 }
 
